@@ -19,7 +19,7 @@ RULE = ("Programs: every body of AST size <= S (core grammar + probe leaves) x {
         "full set; programs above the size stated in bounds.full_subsets_size: every single point and the full set) x repetition {1,3} x mode {trickery, referents} the program is re-run with extract() at exactly those points "
         "and must produce the same event log, yielded values and outcome as the unobserved twin; consecutive extractions of the "
         "unchanged target must compare equal; afterwards weakrefs to every manager, the target and its frame must be dead and "
-        "refcounts of value-stack objects unchanged by 4 extract-and-drop rounds. Chains: same for every chain spec of length "
+        "the same for four hand-written programs whose frame holds a manager with a staticmethod __exit__ (trickery analysis fails and falls back); refcounts of value-stack objects unchanged by 4 extract-and-drop rounds. Chains: same for every chain spec of length "
         "<= N and every subset of its positions. A worker dying on a signal is a violation. evaluations = observed re-runs; "
         "distinct_nontrivial = distinct (program, kind, path) / chain specs with >= 1 observation point.")
 ASSUMPTIONS = ["n > 6 observation points: subsets of size <= 2 plus the full set (stated cap, fully enumerated below it)"]
@@ -225,10 +225,43 @@ def run_once(fn, kind, prefix, obs):
     return tr, wrs
 
 
+class OddM(object):
+    """A manager outside the supported set (its __exit__ is a staticmethod): the trickery analysis of its frame fails
+    and falls back with a warning - a third code path that must be just as side-effect free as the other two."""
+    is_async = False
+
+    def __init__(s, rt, i):
+        s.rt = rt
+        s.i = i
+        rt.wrs.append(weakref.ref(s))
+        OddM.current = s
+
+    def __enter__(s):
+        s.rt.log.append(("enter", s.i))
+        return s
+
+    @staticmethod
+    def __exit__(*exc):
+        s = OddM.current
+        s.rt.log.append(("exited", s.i, 0))
+        s.rt.exited_wr.append((weakref.ref(s), s.i))
+        OddM.current = None
+        return False
+
+
+ODD_PROGRAMS = [
+    ("gen", "def prog(rt):\n    z = None\n    with OddM(rt, 1):\n        with M(rt, 2) as v2:\n            yield 'body'\n    yield 'after'\n"),
+    ("gen", "def prog(rt):\n    z = None\n    with M(rt, 1) as v1:\n        with OddM(rt, 2):\n            yield 'body'\n        yield 'mid'\n    yield 'after'\n"),
+    ("coro", "async def prog(rt):\n    z = None\n    with OddM(rt, 1):\n        async with AM(rt, 2) as v2:\n            await trap('body')\n    await trap('after')\n"),
+    ("func", "def prog(rt):\n    z = None\n    with OddM(rt, 1):\n        with M(rt, 2):\n            rt.probe('body')\n    rt.probe('after')\n"),
+]
+
+
 def compile_tracked(src):
     ns = dict(ps.NS)
     ns["M"] = TrackM
     ns["AM"] = TrackAM
+    ns["OddM"] = OddM
     exec(compile(src, "<prog>", "exec"), ns)
     return ns["prog"]
 
@@ -309,6 +342,14 @@ def run_prog(ctx):
     p = params(ctx.tier)
     g = ps.grammar("core", ("probe",))
     idx = 0
+    if ctx.mine(0):
+        for kind, src in ODD_PROGRAMS:
+            import io
+            import contextlib
+            with contextlib.redirect_stderr(io.StringIO()):
+                nruns, base = check_path(src, kind, (), ctx, {"leg": "prog", "odd": True}, do_refcount=False, full=True)
+            ctx.count("odd_manager_programs")
+            ctx.count("evaluations", nruns)
     for body in ps.programs(g, p["size"], p["depth"]):
         for kind in ("coro", "gen", "agen", "func"):
             if not ps.kind_ok(body, kind) or not ps.has(body, ps.WITH_KINDS):
